@@ -40,29 +40,34 @@ LEVEL_TEXT = (
     "Lean theorems for ALL label lists (cycles with any matching/marked/paused/DELETED inputs and any observation of the task, "
     "daemon-killer stages, the instance ending at any moment, any time steps, any backoff/timeout): at_most_one + "
     "spawn_only_when_none, started_on_match, self_exit_is_remembered + no_restart_after_self_exit, staged + staged_monotone, "
-    "stop_reasons; paused_daemon_cancelled_in_time (+ next_round_within_period, sweep_is_unconditional): while paused, a running "
-    "daemon of a known memory is cancelled within backoff + one killer period, whoever set its flag (the killer's unconditional "
-    "re-sweep is tied to the AST and to every observed round). 'Stopping never stalls' is the theorem `progress` about a micro-step model of _timer for the tree as it is "
-    "(after-run idle loop guarded by the stopper, tied to the AST; incl. the non-suspending run of a series that failed for good); "
-    "`idle_only_spins(+_witness)` is kept as the historical negation for the code before 6ccf081 (F1, fixed; corpus regression). "
-    "'Never crashes': `killer_sweep_visits_all` for the daemon killer's snapshot iteration (tied to the AST; F11 fixed by 06bf1c1; "
-    "corpus regressions). The clause 'asked to stop when the object disappears' is false for DELETED events without "
-    "deletionTimestamp: negation proved (gone_unmarked_not_stopped, orphan_never_stopped, gone_unmarked_witness) and reproduced "
-    "(finding F10, open). Runtime residue the model cannot exhibit: real threads of sync "
-    "daemons, CPython's scheduling of same-instant callbacks.")
+    "stop_reasons. paused_daemon_is_cancelled (+ next_round_within_period): along EVERY run in which the killer's timers fire "
+    "when due (`Dutiful`, Model file), a daemon that still runs with a known memory after round + backoff HAS BEEN cancelled, "
+    "within backoff + one killer period of the flag, whoever set it; that the re-sweep is unconditional and periodic is a tie "
+    "obligation (AST + every observed round), not a property theorem. 'Stopping never stalls' is FALSE of the code as a full clause "
+    "(finding F12, open): `progress_partial` / `daemon_progress_partial` prove it for the micro-step models of _timer (tree variant: "
+    "idle loop guarded by the stopper, tied to the AST) and _daemon under the exact guard `Outcome.good` (a run that does not yield "
+    "to the loop and is to be retried is retried after a positive delay), for every program point, environment and outcome stream; "
+    "`nonyielding_retry_spins(+_witness)` / `daemon_nonyielding_retry_spins` prove the negation outside the guard, replayed on the "
+    "real code on every run (stall <=> the model never settles). `idle_only_spins(+_witness)`: historical negation for the code "
+    "before 6ccf081 (F1 fixed; corpus regression). 'Never crashes' has NO theorem: oracle on every history (no exception out of the "
+    "killer / processing / operator, operator alive) + tie `killer_iterates_snapshots` + corpus regressions (F11 fixed by 06bf1c1). "
+    "'Asked to stop when the object disappears' is false for DELETED events without deletionTimestamp: negation proved "
+    "(gone_unmarked_not_stopped, orphan_never_stopped, gone_unmarked_witness) and reproduced (finding F10, open). Runtime residue the "
+    "model cannot exhibit: real threads of sync daemons, CPython's scheduling of same-instant callbacks.")
 THEOREMS = [("Kopf.Props.C09", "Kopf.C09." + n) for n in [
     "at_most_one", "spawn_only_when_none", "started_on_match", "self_exit_is_remembered", "no_restart_after_self_exit",
-    "staged", "staged_monotone", "stop_reasons", "exit_reaches_known", "next_round_within_period", "sweep_is_unconditional",
-    "paused_daemon_cancelled_in_time", "gone_unmarked_not_stopped", "orphan_never_stopped",
-    "gone_unmarked_witness", "killer_sweep_visits_all", "old_killer_iteration_witness",
-    "progress", "idle_only_spins", "idle_only_spins_witness"]]
+    "staged", "staged_monotone", "stop_reasons", "next_round_within_period", "paused_daemon_is_cancelled",
+    "gone_unmarked_not_stopped", "orphan_never_stopped", "gone_unmarked_witness",
+    "progress_partial", "nonyielding_retry_spins", "nonyielding_retry_witness",
+    "daemon_progress_partial", "daemon_nonyielding_retry_spins", "idle_only_spins", "idle_only_spins_witness"]]
 TIE_THEOREMS = [("Kopf.Tie.C09", "Kopf.C09.Tie." + n) for n in ["stage_eq", "killer_phases_eq", "timers_force_none",
                                                                          "timer_loop_guarded", "killer_iterates_snapshots",
                                                                          "sweep_unconditional", "killer_period_eq"]]
 RULE = ("seeded whole-operator histories: 1-2 objects, 1-3 daemons/timers (modes obey/cancel/ignore/exit; cancellation_backoff/"
         "timeout in {None,0,small,large}; timers with interval/idle/both/neither, sharp, initial_delay), optional label filter and "
         "change handler, timeline of label toggles, spec edits, graceful deletion, deletion before the finalizer lands, forced "
-        "finalizer removal + deletion, pause/resume, graceful restarts and kills at dyadic times; one case = one "
+        "finalizer removal + deletion, pause/resume (incl. the #1266 interleaving: an event processed while already paused), graceful "
+        "restarts and kills at dyadic times, async handlers that never await (retried with delay 0 / None / positive); one case = one "
         "process_spawning_cause pass or one daemon-killer stop_daemon run; distinct & non-trivial = distinct abstracted "
         "(inputs, pre-state shape, stage taken) tuples in which something is spawned, flagged, cancelled, abandoned or ended")
 TRUSTED = ["harness/sim (virtual-time loop, fake API server) + the local instrumentation in harness/props/c09.py",
@@ -73,10 +78,14 @@ ASSUMPTIONS = ["settings.background.instant_exit_timeout is None (the default): 
                "CPython >= 3.12 semantics of asyncio.wait_for (an already-set event does not suspend): on 3.10/3.11 the F1 loop "
                "burns CPU but yields to the loop",
                "no event for a uid follows its DELETED event (Kubernetes API guarantee)",
-               "the handler call + patch round-trip of a timer run suspends at least once (except for a series that has failed "
-               "for good, modelled as not suspending); timers have idle > 0 and interval > 0"]
+               "whether a handler run yields to the event loop is an input of the micro-step models (`Outcome.yields`), not an "
+               "assumption; timers have idle > 0 and interval > 0 (`interval=0` spins like F12)",
+               "`Dutiful` (urgency of the killer's own timers: the round at r and the cancel stage at r + backoff happen before the "
+               "clock passes them) is a hypothesis of paused_daemon_is_cancelled: asyncio fires due timers; CPU starvation is out of scope"]
 
 F1_SIG = {"site": "daemons._timer", "shape": "idle-only timer spins without suspending after its stopper is set"}
+F12_SIG = {"site": "daemons._timer / daemons._daemon",
+           "shape": "non-awaiting async handler retried with zero delay: the retry loop never yields to the event loop"}
 F11_SIG = {"site": "daemons.daemon_killer",
            "shape": "RuntimeError: the killer iterates running_daemons across awaits while exiting daemons remove themselves"}
 F10_SIG = {"site": "processing.process_spawning_cause",
@@ -90,6 +99,7 @@ KILLER_PERIOD = 1.0     # `asyncio.timeout(1.0)` between two rounds of the daemo
 DELTA_START = 2.0      # … and to start up (discovery + first listing)
 DELTA = 1.0            # virtual seconds the operator is given to react to an event (measured: a few 1/64 s)
 SPIN_LIMIT = 20000
+CALL_SPIN_LIMIT = 3000
 
 
 # =================================================================================================
@@ -124,6 +134,7 @@ class Recorder:
         self.pause_toggle: dict[int, Any] = {}
         self.spawn_ctx: dict | None = None
         self.proto_cancels: dict[int, int] = {}
+        self._spin_iter, self._spin_n = -1, 0
 
     def log(self, e: str, **kw: Any) -> dict:
         from ..sim import runner
@@ -134,6 +145,31 @@ class Recorder:
     def muted(self) -> bool:
         from ..sim import runner
         return runner._incarnation.get() in self.sim.obs.dead
+
+    def note_call(self) -> None:
+        """Generic spin detector: the same daemon/timer function entered thousands of times within ONE iteration of
+        the event loop means its guarding coroutine retries it without ever suspending."""
+        loop = asyncio.get_running_loop()
+        it = getattr(loop, "iterations", None)
+        if it is None:
+            return
+        if self._spin_iter == it:
+            self._spin_n += 1
+            if self._spin_n > CALL_SPIN_LIMIT:
+                f = sys._getframe(1)
+                while f is not None and f.f_code.co_name not in ("_timer", "_daemon"):
+                    f = f.f_back
+                func, test, line = None, None, None
+                if f is not None:
+                    func, test = _while_test_at(f.f_code.co_filename, f.f_lineno)
+                    line = f.f_lineno
+                info = {"func": func, "file": "daemons.py", "line": line, "loop_test": test, "n": self._spin_n,
+                        "t": self.sim.now(), "kind": "handler re-invoked without suspending", "tail": self.ev[-6:]}
+                sys.stderr.write("\n@@C09-SPIN " + json.dumps(info, default=repr) + "\n")
+                sys.stderr.flush()
+                os._exit(3)
+        else:
+            self._spin_iter, self._spin_n = it, 1
 
     # ---- the scripted daemon / timer functions ---------------------------------------------------
     def make_handler(self, h: dict) -> Any:
@@ -161,7 +197,12 @@ class Recorder:
             stopped = kwargs["stopped"]
             rec = self._call_rec(h, kwargs)
             rec["mode"] = mode
+            self.note_call()
             try:
+                if mode == "retry":      # never awaits; asks to be retried after `delay` (TemporaryError)
+                    import kopf
+                    rec["outcome"] = "retry"
+                    raise kopf.TemporaryError("scripted", delay=d.get("delay", 0))
                 if mode == "exit":
                     await asyncio.sleep(after)
                     rec["outcome"] = "own-exit"
@@ -208,12 +249,14 @@ class Recorder:
             n = self.sim.obs.counters.get(key, 0)
             self.sim.obs.counters[key] = n + 1
             rec["n"] = n
+            self.note_call()
             try:
-                await asyncio.sleep(dur)
-                act = script[n] if n < len(script) else "ok"
+                if not h.get("noawait"):
+                    await asyncio.sleep(dur)       # an async handler that awaits; with "noawait" the run never yields
+                act = script[n] if n < len(script) else h.get("default", "ok")
                 rec["outcome"] = act if isinstance(act, str) else act[0]
                 if isinstance(act, list) and act[0] == "temp":
-                    raise kopf.TemporaryError("scripted", delay=float(act[1]))
+                    raise kopf.TemporaryError("scripted", delay=None if act[1] is None else float(act[1]))
                 return None
             finally:
                 rec["t_end"] = self.sim.now()
@@ -655,6 +698,8 @@ def gen_scenario(rng: Any, seed: int) -> dict:
             h = {"kind": "daemon", "id": f"d{k}", "opts": opts,
                  "daemon": {"mode": rng.choice(["obey", "obey", "cancel", "cancel", "ignore", "exit"]),
                             "after": rng.choice([0.5, 2.0, 5.0])}}
+            if rng.random() < 0.06:       # never awaits, asks to be retried
+                h["daemon"] = {"mode": "retry", "delay": rng.choice([0.5, 1.0, 1.0 / 64, 2.0, 0])}
         else:
             kind = rng.choice(TIMER_CFGS)
             if kind in ("interval", "sharp", "both"):
@@ -668,6 +713,10 @@ def gen_scenario(rng: Any, seed: int) -> dict:
             h = {"kind": "timer", "id": f"t{k}", "opts": opts, "tcfg": kind}
             if rng.random() < 0.2:
                 h["script"] = [rng.choice(["ok", ["temp", 1.0]]) for _ in range(3)]
+            if rng.random() < 0.12:       # an async handler that never awaits: the run does not yield
+                h["noawait"] = True
+                h["default"] = rng.choice(["ok", ["temp", 0.5], ["temp", 1.0], ["temp", 1.0 / 64], ["temp", 0], ["temp", None]])
+                h.pop("script", None)
         handlers.append(h)
     if rng.random() < 0.5:
         handlers.append({"kind": "create", "id": "c1"})
@@ -958,7 +1007,10 @@ def classify_stall(res: dict) -> tuple[str, dict]:
             info = json.loads(err[k + len("@@C09-SPIN "):].splitlines()[0])
         except ValueError:
             info = {}
-        test = (info.get("loop_test") or "").replace(" ", "")
+        test = (info.get("loop_test") or "").replace(" ", "").replace("(", "").replace(")", "")
+        if (info.get("func"), test) in (("_timer", "notstopper.is_set"), ("_daemon", "notstopper.is_setandnotstate.done")):
+            return (f"the event loop is blocked: {info.get('func')} re-invokes the handler in `while {info.get('loop_test')}` "
+                    f"(line {info.get('line')}) without ever suspending", dict(F12_SIG))
         if info.get("func") == "_timer" and test == "memory.idle_reset_time<=started":
             return (f"the event loop is blocked: _timer spins in `while {info.get('loop_test')}` (line {info.get('line')}) "
                     f"without suspending", dict(F1_SIG))
@@ -1585,6 +1637,10 @@ def _run_batch(ctx: Ctx, scenarios: list[dict], names: list[str | None], oracle_
                 elif h["kind"] == "timer":
                     o = h.get("opts", {})
                     ctx.count("timer_cfg", ("interval" if "interval" in o else "") + ("+idle" if "idle" in o else "") or "neither")
+                    if h.get("noawait"):
+                        ctx.count("nonyielding", f"timer {h.get('default')}")
+                if h["kind"] == "daemon" and h["daemon"]["mode"] == "retry":
+                    ctx.count("nonyielding", f"daemon retry delay={h['daemon'].get('delay')}")
             for e in sc["timeline"]:
                 ctx.count("timeline_op", e[1])
             info = oracle(ctx, sc, res)
@@ -1648,6 +1704,42 @@ def run(ctx: Ctx) -> None:
     gen = [gen_scenario(ctx.rng, ctx.seed * 1_000_000 + i) for i in range(n)]
     agg = _run_batch(ctx, [sc for _, sc in corpus] + gen, [nm for nm, _ in corpus] + [None] * len(gen))
     ctx.extra["stalls"] = agg
+    # the micro-step models against the tree, on non-yielding runs: the real run stalls <=> the model never settles
+    from ..sim import pool as _pool
+    micro = []
+    for kind, delay in [("timer", 0), ("timer", None), ("timer", 0.5), ("timer", 1.0 / 64), ("timer", "ok"),
+                        ("daemon", 0), ("daemon", 1.0), ("daemon", 1.0 / 64)]:
+        if kind == "timer":
+            hh = {"kind": "timer", "id": "t1", "opts": {"interval": 1.0}, "noawait": True,
+                  "default": "ok" if delay == "ok" else ["temp", delay]}
+        else:
+            hh = {"kind": "daemon", "id": "d1", "opts": {}, "daemon": {"mode": "retry", "delay": delay}}
+        micro.append((kind, delay, {"runner": RUNNER, "seed": 1, "handlers": [hh], "timeline": [[1.0, "create", "a", {"spec": {"x": 0}}]],
+                                    "end": 5.0, "settings": {}}))
+    mres = _pool.run_many([m[2] for m in micro], wall=WALL, batch=1)
+    mreq = []
+    for kind, delay, _sc in micro:
+        out = {"done": delay == "ok", "failed": False, "errDelay": 0 if delay in (None, "ok") else _ticks(float(delay)), "yields": False}
+        env = {"now": 100, "stop": False, "idleReset": 0}
+        if kind == "timer":
+            mreq.append(["C09.timer", {"cfg": {"initialDelay": None, "idle": None, "interval": 64, "sharp": False, "guarded": bool(guarded)},
+                                       "env": env, "loc": {"pc": "head", "started": 0, "done": False, "failed": False, "errDelay": 0},
+                                       "outcome": out, "k": 200}])
+        else:
+            mreq.append(["C09.daemon", {"env": env, "initialDelay": None, "outcome": out, "k": 200}])
+    try:
+        mouts = ctx.driver.ask(mreq)
+        for (kind, delay, msc), res, out in zip(micro, mres, mouts):
+            stalled = bool(res.get("stall")) and classify_stall(res)[1] == F12_SIG
+            if "harness_error" in res:
+                raise RuntimeError(res["harness_error"])
+            ctx.case(key=["micro", kind, str(delay), stalled], nontrivial=True)
+            ctx.count("micro_model", f"{kind} non-yielding, retry delay {delay}: {'stalls' if stalled else 'runs'}")
+            ctx.compare(f"{kind} micro-steps: the real run stalls <=> the model never settles (guard: Outcome.good)",
+                        {"stalls": stalled, "good": not stalled}, {"stalls": not out[1]["settles"], "good": out[1]["good"]},
+                        {"scenario": msc, "request": mreq[micro.index((kind, delay, msc))]})
+    except leanio.LeanError as e:
+        ctx.tie_fail(f"Lean driver failed: {e}", {"log": e.log})
     # the micro-step model against the tree: the F1 witness spins in the model iff the real run stalls
     f1 = next((sc for nm, sc in corpus if nm == "F1.json"), None)
     if f1 is not None and guarded is not None:
@@ -1656,7 +1748,8 @@ def run(ctx: Ctx) -> None:
         stalled = bool(res.get("stall")) and classify_stall(res)[1] == F1_SIG
         req = ["C09.timer", {"cfg": {"initialDelay": None, "idle": 64, "interval": None, "sharp": False, "guarded": guarded},
                              "env": {"now": 256, "stop": True, "idleReset": 64},
-                             "loc": {"pc": "idleLoop", "started": 129, "done": True, "failed": False, "errDelay": 0}, "k": 64}]
+                             "loc": {"pc": "idleLoop", "started": 129, "done": True, "failed": False, "errDelay": 0},
+                             "outcome": {"done": True, "failed": False, "errDelay": 0, "yields": True}, "k": 64}]
         try:
             out = ctx.driver.ask([req, ["C09.variant"]])
             ctx.compare("F1 witness: the real run stalls in the idle loop <=> the micro-step model spins", stalled,
@@ -1679,7 +1772,7 @@ def search(ctx: Ctx, broken: list) -> None:
             gen.insert(0, sc)
     for k in range(0, len(gen), CHUNK):
         _run_batch(ctx, gen[k:k + CHUNK], [None] * len(gen[k:k + CHUNK]), oracle_only=True)
-        known = [F1_SIG, F10_SIG, F11_SIG]
+        known = [F1_SIG, F10_SIG, F11_SIG, F12_SIG]
         if any(f.kind == "oracle" and f.signature not in known for f in ctx.failures):
             return
 
